@@ -83,6 +83,10 @@ class LazyList:
                 position.stop,
                 position.step or 1,
             )
+            if step < 0 or (start or 0) < 0 or (stop is not None and stop < 0):
+                # positions counted from the end need the length: same
+                # result as slicing the list this lazy list enumerates
+                return self.listify()[position]
             if stop is None:
 
                 @lazylist
@@ -95,12 +99,6 @@ class LazyList:
                 return infinite_index()
             else:
                 ret = []
-                if step < 0:
-                    return LazyList(
-                        itertools.islice(self.listify(), start, stop, step)
-                    )
-                if stop < 0:
-                    stop = len(self) + stop
                 for i in range(start or 0, stop, step):
                     if not self.has_ind(i):
                         break  # a[x:y] stops at the end, it does not wrap
